@@ -19,6 +19,22 @@ CLAIMED = {
             "bounded universe (3x3 die, <=2 regions with margin, <=3 inside, sliver/1000:1 metrics in thorough; random to 12x12, 10 regions); "
             "floats sampled by 7 origin-0 embeddings; each fixed rectangle is its own fixed module",
             "DESIGN.md 4 (C01)", ["Geometry", "DieOps", "Die", "DieMC", "DieTrace"]),
+    "C02": ("TLA+ spec Alloc/AllocOps (refine / uniform / griddify as actions, conservation as an ACTION property) model-checked by TLC; "
+            "TLC-generated operation sequences replayed on real Allocation objects under 8 embeddings; every observed step trace-validated by TLC (AllocTrace)",
+            "TLC proves on the bounded universe that every composition of the three refinement operations conserves tiling, per-module area and "
+            "first moments, inheritance and leaves fixed cells uncut, and evaluates exactly these clauses (plus 'the call succeeded' and the "
+            "area()/center() accessors) on every step observed on the real code.",
+            "bounded universe (<=3 cells on 3x3, 4 occupancy maps, depths 0..1, sequences of 2 ops; random allocations to 8 cells / 3 modules / "
+            "decimal ratios); 8 embeddings; allocations with a zero-area module are not constructible and skipped",
+            "DESIGN.md 4 (C02)", ["Geometry", "AllocOps", "Alloc", "AllocMC", "AllocTrace"]),
+    "C12": ("TLA+ spec Alloc/AllocOps (RefineExact / UniformExact / Aligned as ACTION properties, predicate/operation agreement as invariant) "
+            "model-checked by TLC; behaviours replayed on real Allocation objects incl. the refine-while-needed loop; trace-validated by TLC (AllocTrace)",
+            "TLC checks on the bounded universe that must_be_refined agrees with refine, that refine splits precisely the selected cells by longer-side "
+            "halving with depth+levels, that uniform refinement reaches the former maximum depth on refinable cells and that griddify ends aligned, "
+            "and evaluates the same clauses on every observed call and loop iteration of the real code.",
+            "as C02; 'every cell at the former maximum depth' is stated over refinable cells (fixed cells are never cut, C02); the 1% sliver "
+            "exception of griddify is taken relative to the cell the piece was cut from; tie of a square cell may be halved along either side",
+            "DESIGN.md 4 (C12)", ["Geometry", "AllocOps", "Alloc", "AllocMC", "AllocTrace"]),
     "C11": ("TLA+ spec Die (split_refinable_regions as phase-1 step + one action per phase-2 iteration, initial_grid) model-checked by TLC; "
             "requests replayed on real Die objects under 7 embeddings; lists after every call trace-validated by TLC (DieTrace post-conditions)",
             "TLC checks count / parent+tag / per-parent tiling / aspect-ratio / untouched blockages+fixed as invariants of the modelled algorithm "
